@@ -524,31 +524,65 @@ def dim_map_nd_stream(ctx):
 
 
 def ham_ownership(ctx):
+    """every Hamiltonian generator that accepts `ownership`, over its option cross product (couplings, fields, cyclic,
+    parallel, dense/sparse): the owned block is exactly those rows of the full operator"""
     import quimb as qu
 
+    def dense(x):
+        return x.toarray() if hasattr(x, "toarray") else np.asarray(x)
+
+    builders = []
     for n in ctx.n([3, 4], [2, 3, 4, 5, 6]):
-        D = 2**n
-        for name, f in [("ham_heis", lambda **kw: qu.ham_heis(n, j=(1.0, 2.0, 3.0), b=0.5, **kw)),
-                        ("ham_j1j2", lambda **kw: qu.ham_j1j2(n, j1=1.0, j2=0.5, bz=0.25, **kw))]:
-            try:
-                full = np.asarray(f(sparse=False)) if name == "ham_heis" else np.asarray(f().toarray() if hasattr(f(), "toarray") else f())
-            except Exception:
+        for cyclic in (False, True):
+            builders.append((f"ham_heis", n, 2**n, {"cyclic": cyclic}, lambda n=n, cyclic=cyclic, **kw: qu.ham_heis(n, j=(1.0, 2.0, 3.0), b=0.5, cyclic=cyclic, **kw)))
+            builders.append((f"ham_heis", n, 2**n, {"cyclic": cyclic, "b": "vector"},
+                             lambda n=n, cyclic=cyclic, **kw: qu.ham_heis(n, j=0.5, b=(0.25, 0.5, -1.0), cyclic=cyclic, **kw)))
+            for bz in (0.0, 0.25):
+                builders.append((f"ham_j1j2", n, 2**n, {"cyclic": cyclic, "bz": bz},
+                                 lambda n=n, cyclic=cyclic, bz=bz, **kw: qu.ham_j1j2(n, j1=1.0, j2=0.5, bz=bz, cyclic=cyclic, **kw)))
+            builders.append((f"ham_mbl", n, 2**n, {"cyclic": cyclic},
+                             lambda n=n, cyclic=cyclic, **kw: qu.ham_mbl(n, dh=1.5, seed=7, cyclic=cyclic, **kw)))
+            for par in (False, True):
+                builders.append((f"ham_hubbard_hardcore", n, 2**n, {"cyclic": cyclic, "parallel": par},
+                                 lambda n=n, cyclic=cyclic, par=par, **kw: qu.ham_hubbard_hardcore(n, t=0.5, V=1.5, mu=0.75, cyclic=cyclic, parallel=par, **kw)))
+    for (nx, ny) in ctx.n([(2, 2), (2, 3)], [(2, 2), (2, 3), (3, 2), (3, 3)]):
+        for cyclic in (False, True):
+            for par in (False, True):
+                for bz in (0.0, 0.75):
+                    for jj in (1.0, (0.5, 1.0, -2.0), 0.0):
+                        if jj == 0.0 and bz == 0.0:
+                            continue
+                        builders.append((f"ham_heis_2D", (nx, ny), 2**(nx * ny), {"cyclic": cyclic, "parallel": par, "bz": bz, "j": jj},
+                                         lambda nx=nx, ny=ny, cyclic=cyclic, par=par, bz=bz, jj=jj, **kw:
+                                         qu.ham_heis_2D(nx, ny, j=jj, bz=bz, cyclic=cyclic, parallel=par, **kw)))
+    for name, n, D, opts, f in builders:
+        try:
+            full = dense(f())
+        except Exception as e:
+            ctx.bump("ham_builder_rejected:" + name)
+            continue
+        if full.shape != (D, D):
+            ctx.violation(f"{name}:shape", f"{name} full operator has shape {full.shape}, expected {(D, D)}", {"call": name, "n": n, "options": opts})
+            continue
+        rngs = [(0, D), (0, 1), (D - 1, D), (1, D - 1), (D // 2, min(D, D // 2 + 3)), (3, 5)]
+        for ri, rf in rngs:
+            if not (0 <= ri < rf <= D):
                 continue
-            rngs = [(0, D), (0, 1), (D - 1, D), (1, D - 1), (D // 2, D // 2 + 3 if D // 2 + 3 <= D else D), (3, 5)]
-            for ri, rf in rngs:
-                if not (0 <= ri < rf <= D):
-                    continue
-                ctx.count((name, n, ri, rf), True)
+            for sparse in ((True, False) if name in ("ham_heis", "ham_mbl") and rf - ri < D else (None,)):
+                ctx.count((name, str(n), str(sorted(opts.items())), ri, rf, sparse), rf - ri < D)
+                ctx.bump("ham_ownership:" + name)
+                kw = {"ownership": (ri, rf)}
+                if sparse is not None:
+                    kw["sparse"] = sparse
+                desc = {"call": name, "n": n, "options": {k: (list(v) if isinstance(v, tuple) else v) for k, v in opts.items()},
+                        "ownership": [ri, rf], "sparse": sparse}
                 try:
-                    X = f(ownership=(ri, rf), sparse=True) if name == "ham_heis" else f(ownership=(ri, rf))
-                    X = X.toarray() if hasattr(X, "toarray") else np.asarray(X)
+                    X = dense(f(**kw))
                 except Exception as e:
-                    ctx.violation(f"{name}:ownership:raised", f"{name}(ownership=({ri},{rf})) raised {type(e).__name__}: {e}",
-                                  {"call": name, "n": n, "ownership": [ri, rf]})
+                    ctx.violation(f"{name}:ownership:raised", f"{name}(ownership=({ri},{rf})) raised {type(e).__name__}: {str(e)[:120]}", desc)
                     continue
                 if X.shape != full[ri:rf].shape or not np.allclose(X, full[ri:rf]):
-                    ctx.violation(f"{name}:ownership", f"{name}(ownership=({ri},{rf})) is not those rows of the full Hamiltonian",
-                                  {"call": name, "n": n, "ownership": [ri, rf]})
+                    ctx.violation(f"{name}:ownership", f"{name}(ownership=({ri},{rf})) is not those rows of the full Hamiltonian", desc)
 
 
 def run(ctx):
